@@ -199,7 +199,8 @@ func (s *JSchema) GetAST() (an schema.ASTNode, err error) {
 		return schema.ASTNode{}, err
 	}
 
-	return s.ASTNode, nil
+	// A copy: the node belongs to the schema, the caller may change what it gets.
+	return s.ASTNode.Copy(), nil
 }
 
 func (s *JSchema) UsedUserTypes() ([]string, error) {
